@@ -229,6 +229,27 @@ class LogCapture(logging.Handler):
 
 
 _RUN: 'Run | None' = None
+
+
+# the moment an event's completion signal goes from unset to set (harness-side wrapper of the library method that decides it)
+_orig_mark_complete = BaseEvent.event_mark_complete_if_all_handlers_completed
+
+
+def _traced_mark_complete(self):
+    sig = self._event_completed_signal
+    before = sig.is_set() if sig is not None else False
+    out = _orig_mark_complete(self)
+    run = _RUN
+    if run is not None and not before:
+        sig = self._event_completed_signal
+        if sig is not None and sig.is_set():
+            tag = run.tag_of(self)
+            if tag > 0:
+                run.rec('sig_set', ev=tag)
+    return out
+
+
+BaseEvent.event_mark_complete_if_all_handlers_completed = _traced_mark_complete
 _orig_get_nowait = S.CleanShutdownQueue.get_nowait
 
 
@@ -392,6 +413,8 @@ class Run:
                     o = op[5] if len(op) > 5 and op[5] else {}
                     if o.get('timeout'):
                         m = max(m, o['timeout'])
+                elif k == 'occupy':
+                    m = max(m, op[2])
                 elif k in ('idle', 'stop', 'stop_bus', 'step'):
                     if op[2]:
                         m = max(m, op[2])
@@ -479,16 +502,16 @@ class Run:
                 if kind == 'devfull':
                     wal = '/dev/full'
                 elif kind == 'parentfile':  # the parent of the WAL path is a regular file: mkdir fails
-                    blocker = os.path.join(self.workdir, f'{d["name"]}.blocker')
+                    blocker = os.path.join(self.workdir, f'{i}_{d["name"]}.blocker')
                     open(blocker, 'w').close()
                     wal = os.path.join(blocker, 'wal.jsonl')
                 elif kind == 'isdir':  # the WAL path itself is a directory: open fails
-                    wal = os.path.join(self.workdir, f'{d["name"]}.dir')
+                    wal = os.path.join(self.workdir, f'{i}_{d["name"]}.dir')
                     os.makedirs(wal, exist_ok=True)
                 elif kind == 'nested':  # parent directories do not exist yet
-                    wal = os.path.join(self.workdir, 'a', 'b', f'{d["name"]}.jsonl')
+                    wal = os.path.join(self.workdir, 'a', 'b', f'{i}_{d["name"]}.jsonl')
                 else:
-                    wal = os.path.join(self.workdir, f'{d["name"]}.jsonl')
+                    wal = os.path.join(self.workdir, f'{i}_{d["name"]}.jsonl')
             cls_ = TracedBus2 if d.get('sub') else TracedBus
             try:
                 b = cls_(name=d['name'], parallel_handlers=bool(d.get('par')), max_history_size=d.get('hist'), wal_path=wal)
@@ -675,6 +698,17 @@ class Run:
                 if mode == 'later':
                     later.append(c)
                     continue
+                if mode == 'acc':
+                    # a result accessor with its own (short) timeout on a child that was dispatched but not awaited: inside a handler
+                    # nothing can process the child meanwhile, so this runs into the timeout; the handler carries on
+                    self.rec('acc_begin', by=by, ev=self.tag_of(c))
+                    out_ = 'ret'
+                    try:
+                        await c.event_result(timeout=(opts or {}).get('acc_timeout', 0.05), raise_if_any=False, raise_if_none=False)
+                    except TimeoutError:
+                        out_ = 'timeout'
+                    self.rec('acc_end', by=by, ev=self.tag_of(c), out=out_)
+                    continue
                 if pre is not None and pre >= 0:
                     await asyncio.sleep(pre)
                 if opts and opts.get('wf_at') is not None:  # the bound given as an absolute virtual instant (fault enumeration)
@@ -752,6 +786,15 @@ class Run:
                 c = self.shared.get(op[1])
                 if c is not None and c.event_path and not self._in_own_ancestry(c, event):
                     await self._await_event(c, by)
+            elif k == 'idle':
+                # (only in tasks created by a handler, after that handler has ended: a flush / tear-down task waiting for a bus)
+                b = self.buses.get(op[1])
+                if b is not None and not is_handler:
+                    sq = self.n + 1
+                    self.rec('idle_call', by=by, bus=op[1], timeout=op[2], call=sq)
+                    await b.wait_until_idle(timeout=op[2])
+                    self.rec('idle_ret', by=by, bus=op[1], call=sq, timeout=op[2], q=b.event_queue.qsize() if b.event_queue else 0,
+                             pend=len(b.events_pending), started=len(b.events_started), running=b._is_running)
             elif k == 'stop_bus':
                 b = self.buses.get(op[1])
                 if b is not None:
@@ -792,6 +835,17 @@ class Run:
             elif k == 'ret':
                 ret = op[1]
                 break
+            elif k in ('ret_shared', 'ret_actor'):
+                # a handler hands back an event it did NOT dispatch (a lookup returning the event a sibling / top-level code created)
+                if k == 'ret_shared':
+                    c = self.shared.get(op[1])
+                else:
+                    other = self.actor_events.get(op[1], [])
+                    c = other[op[2]] if op[2] < len(other) else None
+                if c is not None and c.event_path and not self._in_own_ancestry(c, event):
+                    self.rec('ret_event', by=by, ev=self.tag_of(c))
+                    ret = c
+                    break
             elif k == 'retexc':
                 ret = make_exc(op[1], str(by))
                 self.keep.append(ret)
@@ -887,7 +941,7 @@ class Run:
                 ptag = next((p_ for p_, cs in self.children.items() if me in cs), None)
                 if ptag is not None:
                     self._dispatch(self.events[ptag], op[1], by, None)
-            elif k in ('sleep', 'spawn', 'await_shared', 'await_actor', 'stop_bus', 'gather', 'step', 'redisp_actor', 'raise_cancelled'):
+            elif k in ('sleep', 'spawn', 'await_shared', 'await_actor', 'stop_bus', 'gather', 'step', 'redisp_actor', 'raise_cancelled', 'ret_shared', 'ret_actor', 'idle'):
                 continue  # not expressible in a sync handler
             else:
                 raise AssertionError(f'unknown op {op}')
@@ -968,7 +1022,17 @@ class Run:
                 run._h_exit(inv, out, eid, et)
 
         name = f'h{hi}'
-        if kind == 'async':
+        if kind == 'async' and h.get('retry'):
+            # an event handler decorated with @retry(semaphore_limit=...) (documented use): the library starts the handler - and its
+            # timeout clock - at 'h_call'; the body is entered only once a slot of the named semaphore is free
+            rt = h['retry']
+            inner = H.retry(retries=0, wait=0, timeout=rt.get('attempt_timeout', 60.0), semaphore_limit=rt.get('limit', 1), semaphore_name=f"hs_{rt.get('name', 's')}",
+                            semaphore_lax=rt.get('lax', True), semaphore_timeout=rt.get('sem_timeout'))(a_body)
+
+            async def handler(event):
+                run.rec('h_call', h=hi, ev=run.tag_of(event), bus=home)
+                return await inner(event)
+        elif kind == 'async':
             async def handler(event):
                 return await a_body(event)
         elif kind == 'sync':
@@ -1150,6 +1214,11 @@ class Run:
                     self.rec('stop_ret', by=by, bus=op[1], call=sq, timeout=op[2])
                 elif k == 'expect':
                     await self._expect(by, op, res)
+                elif k == 'occupy':
+                    # plain code (no event involved) calling a function that shares a @retry semaphore with event handlers
+                    async def _occ():
+                        await asyncio.sleep(op[2])
+                    await H.retry(retries=0, wait=0, timeout=60.0, semaphore_limit=op[3] if len(op) > 3 else 1, semaphore_name=f'hs_{op[1]}')(_occ)()
                 elif k == 'cancel_actor':
                     t = self.actor_tasks[op[1]] if op[1] < len(self.actor_tasks) else None
                     if t is not None and not t.done():
